@@ -6,6 +6,7 @@ import (
 	"fmt"
 	"sort"
 	"strings"
+	"sync"
 	"testing"
 	"time"
 
@@ -54,7 +55,7 @@ func (p *ksPD) GetGCInternalController(uint32) pdgc.InternalController {
 
 // codecRPC applies a keyspace codec around the store client, as the production RPC client does.
 type codecRPC struct {
-	inner   *mocktikv.RPCClient
+	inner   *guard
 	cluster *mocktikv.Cluster
 	codec   apicodec.Codec
 }
@@ -106,7 +107,7 @@ func (c *codecRPC) rawDeleteRange(ctx context.Context, addr string, enc *tikvrpc
 	if bytes.Compare(lo, meta.StartKey) < 0 || (len(meta.EndKey) > 0 && (len(r.EndKey) == 0 || bytes.Compare(hi, meta.EndKey) > 0)) {
 		panic(fmt.Sprintf("RawDeleteRange [%x,%x) sent to region [%x,%x) which does not contain it", lo, hi, meta.StartKey, meta.EndKey))
 	}
-	c.inner.MvccStore.(mocktikv.RawKV).RawDeleteRange(r.Cf, r.StartKey, r.EndKey)
+	c.inner.inner.MvccStore.(mocktikv.RawKV).RawDeleteRange(r.Cf, r.StartKey, r.EndKey)
 	return &tikvrpc.Response{Resp: &kvrpcpb.RawDeleteRangeResponse{}}, nil
 }
 
@@ -128,7 +129,7 @@ func (c *codecRPC) rawScan(ctx context.Context, addr string, enc *tikvrpc.Reques
 		panic("VERIF-INFRA: region vanished")
 	}
 	rs, re := mocktikv.MvccKey(meta.StartKey).Raw(), mocktikv.MvccKey(meta.EndKey).Raw()
-	store := c.inner.MvccStore.(mocktikv.RawKV)
+	store := c.inner.inner.MvccStore.(mocktikv.RawKV)
 	var pairs []mocktikv.Pair
 	if r.Reverse {
 		upper, lower := r.StartKey, r.EndKey
@@ -158,6 +159,35 @@ func (c *codecRPC) rawScan(ctx context.Context, addr string, enc *tikvrpc.Reques
 		out.Kvs = append(out.Kvs, kv)
 	}
 	return &tikvrpc.Response{Resp: out}, nil
+}
+
+// guard keeps requests of the clients' background goroutines (asynchronous secondary commits) away from the mock
+// store once the case has closed it: a closed leveldb dereferences nil and would take the test process down.
+type guard struct {
+	inner  *mocktikv.RPCClient
+	mu     sync.RWMutex
+	closed bool
+}
+
+func (g *guard) Close() error                              { return nil }
+func (g *guard) CloseAddr(string) error                    { return nil }
+func (g *guard) SetEventListener(tikv.ClientEventListener) {}
+func (g *guard) SendRequestAsync(ctx context.Context, addr string, req *tikvrpc.Request, cb async.Callback[*tikvrpc.Response]) {
+	go func() { cb.Schedule(g.SendRequest(ctx, addr, req, tikv.ReadTimeoutShort)) }()
+}
+func (g *guard) SendRequest(ctx context.Context, addr string, req *tikvrpc.Request, timeout time.Duration) (*tikvrpc.Response, error) {
+	g.mu.RLock()
+	defer g.mu.RUnlock()
+	if g.closed {
+		return nil, fmt.Errorf("the store of this case is closed")
+	}
+	return g.inner.SendRequest(ctx, addr, req, timeout)
+}
+func (g *guard) shutdown() {
+	g.mu.Lock()
+	g.closed = true
+	g.mu.Unlock()
+	sim.CloseMock(g.inner)
 }
 
 type tenant struct {
@@ -192,7 +222,8 @@ func TestKeyspaceEndToEnd(t *testing.T) {
 		if err != nil {
 			t.Fatalf("VERIF-INFRA: %v", err)
 		}
-		defer sim.CloseMock(inner)
+		g := &guard{inner: inner}
+		defer g.shutdown()
 		mocktikv.BootstrapWithMultiStores(cluster, 3)
 		ids := []uint32{1, 2, 0xffffff}
 		shim := &ksPD{Client: pdc, metas: map[string]*keyspacepb.KeyspaceMeta{}}
@@ -214,10 +245,10 @@ func TestKeyspaceEndToEnd(t *testing.T) {
 			probe := rawkv.ClientProbe{Client: cli}
 			probe.SetRegionCache(tn.cache)
 			probe.SetPDClient(rawPD)
-			probe.SetRPCClient(&codecRPC{inner: inner, cluster: cluster, codec: rawPD.GetCodec()})
+			probe.SetRPCClient(&codecRPC{inner: g, cluster: cluster, codec: rawPD.GetCodec()})
 			cli.SetColumnFamily("CF_DEFAULT")
 			tn.raw = cli
-			store, err := tikv.NewTestKeyspaceTiKVStore(inner, shim, nil, nil, 0, *shim.metas[name], tikv.WithUpdateInterval(time.Hour))
+			store, err := tikv.NewTestKeyspaceTiKVStore(g, shim, nil, nil, 0, *shim.metas[name], tikv.WithUpdateInterval(time.Hour))
 			if err != nil {
 				t.Fatalf("VERIF-INFRA: %v", err)
 			}
